@@ -196,7 +196,7 @@ def run(ctx):
                 'row by row on pfst, spec oracle cross-checked with ast.parse. '
                 'V: histories of consecutive raw edits (put_src(reparse) via any node, raw node replace with/without '
                 '`to`/`pars`, put_src(None)+reparse(), reparse() of nodes) on corpus programs x layout variants and on '
-                'Expression/Interactive roots; every event validated by TLC (RawTrace). '
+                'Expression roots; every event validated by TLC (RawTrace). '
                 'distinct = distinct (outcome, edit class) pairs, the class being computed by the spec from logged facts')
     ctx.assumptions += ['projection (harness/proj.py), ast.parse in the mode of the root kind and tokenize are trusted',
                         'f-string internals are never targeted by raw node puts (put_src rectangles may hit them)',
@@ -255,7 +255,7 @@ def run(ctx):
     for n, steps, profile, base in plan:
         specs = history_specs(ctx, n, steps, profile, base)
         results += _pool_map(_hist_shard, shard(specs, 6 if ctx.quick else 12))
-    for k, mode in enumerate(('eval', 'single')):
+    for k, mode in enumerate(('eval',)):
         specs = history_specs(ctx, other, 5 if ctx.quick else 12, 'wild', 200_000 + k * 50_000, mode)
         results += _pool_map(_hist_shard, shard(specs, 1 if ctx.quick else 3))
 
@@ -298,3 +298,65 @@ def replay(ctx, path):
     ctx.states = max(ctx.states, 1)
     ctx.transitions = max(ctx.transitions, 1)
     return ctx.finish()
+
+
+def selftest(ctx):
+    """Binding demonstration: corrupt one recorded field of an accepted trace; TLC must reject it and name the clause."""
+    import copy
+    specs = history_specs(ctx, 40, 5, 'clean', 0)
+    batch, scripts = _hist_shard((0, specs))
+    verd = validate(ctx, batch)
+    ok_tr = raise_tr = None
+    for tr in batch['traces']:
+        if verd[tr['id']]['bad']:
+            continue
+        for k, ev in enumerate(tr['steps']):
+            if ev['call'] == 'put_src' and ev['outcome'] == 'ok' and ev['valid'] and ev['post']['text'] != \
+                    (tr['init'] if k == 0 else tr['steps'][k - 1]['post'])['text'] and ok_tr is None:
+                ok_tr = (tr, k)
+            if ev['call'] == 'put_src' and ev['outcome'] == 'raise' and not ev['valid'] and raise_tr is None:
+                raise_tr = (tr, k)
+    if not ok_tr or not raise_tr:
+        raise common.Machinery('selftest: no accepted trace with an ok and a raise step')
+
+    def pre(tr, k):
+        return tr['init'] if k == 0 else tr['steps'][k - 1]['post']
+
+    cases = []
+    tr, k = ok_tr
+    p = pre(tr, k)
+    for name, field, value, clause in [
+            ('stale positions', 'liveP', p['liveP'], 'TreeIsFullParse.'),
+            ('source not updated', 'text', p['text'], 'TextIsSplice'),
+            ('root object replaced', 'rootObj', p['rootObj'] + 1000, 'RootIdentity')]:
+        t2 = copy.deepcopy(tr)
+        t2['steps'] = t2['steps'][:k + 1]
+        t2['steps'][k]['post'][field] = value
+        cases.append((name, t2, k + 1, clause))
+    t2 = copy.deepcopy(tr)
+    t2['steps'] = t2['steps'][:k + 1]
+    t2['steps'][k]['valid'] = False
+    cases.append(('oracle says invalid', t2, k + 1, 'AcceptIffValid.acceptedInvalid'))
+    tr, k = raise_tr
+    t2 = copy.deepcopy(tr)
+    t2['steps'] = t2['steps'][:k + 1]
+    t2['steps'][k]['post']['text'] = t2['steps'][k]['otext']
+    cases.append(('source changed by a failed call', t2, k + 1, 'AtomicOnRaise'))
+    t2 = copy.deepcopy(tr)
+    t2['steps'] = t2['steps'][:k + 1]
+    t2['steps'][k]['valid'] = True
+    cases.append(('oracle says valid', t2, k + 1, 'AcceptIffValid.refusedValid'))
+    for i, c in enumerate(cases):
+        c[1]['id'] = 900 + i
+    b2 = {k2: batch[k2] for k2 in batch if k2 != 'traces'}
+    b2['traces'] = [c[1] for c in cases]
+    v2 = validate(ctx, b2)
+    rc = 0
+    for i, (name, t2, step, clause) in enumerate(cases):
+        bad = sorted(v2[900 + i]['bad'])
+        hit = [b for b in bad if b[0] == step and b[1].startswith(clause)]
+        print(f'selftest corruption "{name}": expected {clause}* at step {step}; TLC said '
+              f'{[(s, c) for s, c, _ in bad]} -> {"rejected, right clause" if hit else "MISSED"}')
+        if not hit:
+            rc = 2
+    return rc
